@@ -544,6 +544,14 @@ def gen_project(rng):
         bound = {s.get_name() for s in symtable.symtable(body, "m", "exec").get_symbols() if s.is_local()}
         if "lib" in bound:
             continue
+        early = None
+        if rng.random() < 0.5 and "gv" not in bound:
+            # a module-level variable of lib that a function written ABOVE its module-level assignment rebinds through
+            # `global`: the first assignment in the source is not the module-level one
+            early = "gv"
+            lib = "def early_gv():\n    global gv\n    gv = 1\n    return gv\n" + lib + "gv = 0\nprint(gv)\n"
+            tree = ast.parse(lib)
+            tops["gv"] = ("var", None)
         head = ["import lib"]
         used = {"lib"} | bound
         imported = []
@@ -557,7 +565,13 @@ def gen_project(rng):
             else:
                 lib = "%s = %d\n" % (line1, rng.randint(0, 9)) + lib
                 tops[line1] = ("var", None)
-        for x in rng.sample(sorted(tops), min(len(tops), rng.randint(1, 3))):
+        picks = rng.sample(sorted(tops), min(len(tops), rng.randint(1, 3)))
+        if early and early not in picks:
+            picks.append(early)
+        cls_names = [k for k, v in tops.items() if v[0] == "class"]
+        if cls_names and not set(picks) & set(cls_names):
+            picks.append(rng.choice(sorted(cls_names)))
+        for x in picks:
             alias = rng.choice([None, None, "q1", "q2", rng.choice(V)])
             sp = alias or x
             if sp in used:
@@ -579,6 +593,22 @@ def gen_project(rng):
         elif line1 is not None and line1 not in used:
             foot.append("def via_alias():\n    import lib as %s\n    return %s.%s" % (line1, line1, line1))
             foot.append("def via_name():\n    from lib import %s\n    return %s" % (line1, line1))
+        # attributes of lib's classes - those created by `self.attr = ...` in a method included - referenced from
+        # this module, through the imported class and through the module
+        for cls in [n for n in tree.body if isinstance(n, ast.ClassDef) and tops.get(n.name, ("", None))[0] == "class"]:
+            attrs = set()
+            for st in cls.body:
+                if isinstance(st, ast.Assign):
+                    attrs |= {t_.id for t_ in st.targets if isinstance(t_, ast.Name)}
+                elif isinstance(st, ast.FunctionDef) and st.args.args:
+                    self_ = st.args.args[0].arg
+                    attrs |= {n.attr for n in ast.walk(st) if isinstance(n, ast.Attribute) and isinstance(n.ctx, ast.Store)
+                              and isinstance(n.value, ast.Name) and n.value.id == self_}
+            sps = [sp for (x_, sp, _k) in imported if x_ == cls.name]
+            for a_ in sorted(attrs)[:3]:
+                foot.append("print(lib.%s.%s)" % (cls.name, a_))
+                for sp in sps:
+                    foot.append("print(%s.%s)" % (sp, a_))
         x = rng.choice(sorted(tops))
         foot.append("print(lib.%s)" % x)
         foot.append("def use_lib(lib):\n    return lib.%s" % x)
